@@ -1426,10 +1426,7 @@ def _norm_value(vals, p, dt):
             return _sum(_abs(v) for v in fv)
         raise HarnessError(f"norm p={p}")
     if p == 2:
-        s = SymReal.const(0)
-        for v in vals:
-            s = s + v * v
-        return symx.sqrt(s)
+        return symx.norm2(vals)
     if p in (inf, 1):
         if builtins.all(isinstance(v, SymReal) and v.c is not None for v in vals):
             av = [_abs(v.c) for v in vals]
